@@ -211,6 +211,30 @@ def run_property(prop, tier, ctx=None, quiet=False):
     return ctx, reg[prop], results
 
 
+def replay(prop, path):
+    """re-run the rule instance recorded in a replay file on the current tree: exit 1 if the same
+    finding (rule + function + construct) is still derived, 0 if it is gone"""
+    try:
+        rec = json.load(open(path))
+        key = rec['finding']['key']
+        ctx, spec, results = run_property(prop, 'quick')
+    except AnalysisError as e:
+        print('ANALYSIS-ERROR property=%s rule=%s site=%s reason=%s' % (prop, e.rule, e.site, e.reason))
+        return 2
+    except Exception:
+        print('ANALYSIS-ERROR property=%s cannot replay %s' % (prop, path))
+        traceback.print_exc()
+        return 2
+    for r in results:
+        for f in r.findings:
+            if f.key == key:
+                print('%s:%s: [%s] %s' % (f.file, f.line, f.rule, f.message))
+                print('VIOLATION property=%s replay=%s' % (prop, path))
+                return 1
+    print('replay %s: finding %s is no longer derived on the current tree' % (path, key))
+    return 0
+
+
 def main(argv=None):
     argv = argv or sys.argv[1:]
     if not argv:
@@ -222,6 +246,8 @@ def main(argv=None):
         tier = argv[argv.index('--tier') + 1]
     if tier not in ('quick', 'thorough'):
         tier = 'quick'
+    if '--replay' in argv:
+        return replay(prop, argv[argv.index('--replay') + 1])
     t0 = time.time()
     try:
         ctx, spec, results = run_property(prop, tier)
